@@ -29,9 +29,11 @@ PROP = dict(
     },
     level="proof",
     technique="Coq proof over an arbitrary EVM (record of a state type and four unconstrained call functions) + honest-contract instance for the round trip; "
-              "vm_compute correspondence: the real x/erc20 message server driven around a scripting/recording EVMKeeper wrapper, the model re-run on the recorded answers",
+              "vm_compute correspondence: the real x/erc20 message server driven around a scripting/recording EVMKeeper wrapper, the model re-run on the recorded answers; "
+              "go/ast translator: the balance checks of the four convert* functions (big.Int expected balance, Cmp, coin-side IsEqual, the unpacked transfer boolean, the amounts handed to bank / EVM) regenerated as Gen/KErc20.v and proved equal to the model's checks (Gen/AgreeErc20)",
     modelled=[
         "x/erc20/keeper/msg_server.go ConvertCoin, ConvertERC20, convertCoinNativeCoin, convertCoinNativeERC20, convertERC20NativeCoin, convertERC20NativeToken",
+        "x/erc20/keeper/msg_server.go convertCoinNativeCoin, convertERC20NativeCoin, convertERC20NativeToken, convertCoinNativeERC20: source text translated by tools/gokernel (gen_convert* in Gen/KErc20.v), agreement lemmas agree_convert* / uses_* in Gen/AgreeErc20.v",
         "x/erc20/keeper/evm.go BalanceOf, CallEVM, CallEVMWithData, monitorApprovalEvent",
         "x/erc20/types/interfaces.go EVMKeeper (as an arbitrary record of functions)",
         "contracts/ERC20MinterBurnerDecimals.sol (honest ledger: mint, burnCoins, transfer, zero-address guards, pause) for the round trip",
@@ -47,3 +49,6 @@ PROP = dict(
         "`return nil, nil` for a selfdestructed contract (pair removed, nothing converted) is class pair-removed, monitored for leaving both ledgers unchanged; it is not counted as a successful conversion",
     ],
 )
+
+# translator agreement lemmas (tools/gokernel regenerates Gen/K*.v from /repo on every run)
+PROP["agree"] = ['Gen/AgreeErc20']
